@@ -54,9 +54,39 @@ def run(ctx, chk):
     chk.rule("G5", "negotiated-state fields are written only in the negotiation paths, from the "
                    "negotiated value")
     run_on(fb, chk)
+    from . import xlist
+    xlist.apply("C07", fb, chk)
     chk.floor("G1", len([i for i in chk.instances if i[0] == "G1"]), 22)
     chk.floor("G2", len([i for i in chk.instances if i[0] == "G2"]), 17)
     chk.floor("G3", len([i for i in chk.instances if i[0] == "G3"]), 5)
+
+
+def exact_gates(fb, chk, tag=""):
+    """GX (filed by the sibling properties only): the backend server refuses a request for a missing feature only when
+    the protocol ties the request to that feature — the feature tests that are must-facts at a handler call are exactly the
+    specification's gate for that request (an extra test drops a well-formed request: no handler call, no reply)."""
+    from .c02 import server_handler_calls
+    chk.rule("GX", "the feature tests guarding a handler call are exactly the protocol's gate for that request (none extra)")
+    has_postcopy = bool(fb.find(name="postcopy_advise", self_adt="Frontend"))
+    be_roles = common.backend_state_roles(fb)
+    rev = {v: k for k, v in be_roles.items()}
+    hr, mh, calls = server_handler_calls(fb)
+    for code, row in sorted(wire.FRONTEND_TABLE.items()):
+        if "B" not in row["impl"] or not row["handler"] or (row.get("feature") == "postcopy" and not has_postcopy):
+            continue
+        exp = expected_gate(row, "B")
+        for (f, bb, t, c, via) in calls.get(code, []):
+            if c.get("name") != row["handler"]:
+                continue
+            gs = list(gates_at(fb, must_of(fb, f), bb))
+            if via:
+                gs += list(gates_at(fb, mh, via[0]))
+            got = {(rev.get(g[0], g[0]), g[1]) for g in gs if g[1] is not None}
+            extra = sorted(got - ({exp} if exp else set()))
+            chk.check(not extra, "GX", "%sarm:%s" % (tag, code), "feature tests at the call of %s: %s" % (c["name"], sorted(got)),
+                      "handler %s for %s is guarded by feature test(s) %s the protocol does not tie this request to: a well-formed "
+                      "%s is refused (no handler call, no reply)" % (c["name"], code, [(r, hex(b)) for r, b in extra], code),
+                      f.loc(t["line"]))
 
 
 def thorough(ctx, chk):
